@@ -213,6 +213,8 @@ def steps_of(beh):
             out.append(["SetEasy", last["h"], "", [], [int(x) for x in last["arg"]]])
         elif last["op"] == "set_config":
             out.append(["SetConfig", last["h"], "", [], [str(x) for x in last["arg"]]])
+        elif last["op"] == "shift_scores":
+            out.append(["ShiftScores", last["h"], "", [], [int(last["arg"][0])]])
         elif last["op"] == "set_scores":
             out.append(["SetScores", last["h"], "", [], [str(last["arg"][0]), [int(x) for x in last["arg"][1]]]])
         else:
@@ -222,7 +224,7 @@ def steps_of(beh):
 
 
 def replay_behaviour(o0, steps_in, cid, ids, seed):
-    g = [gamma.ident(), gamma.affine(2.0, 1.0), gamma.affine(0.5, -3.0)][(cid + seed) % 3]
+    g = [gamma.ident(), gamma.affine(2.0, 1.0), gamma.affine(0.5, -3.0), gamma.ident_int(), gamma.ident_f32()][(cid + seed) % 5]
     evs = []
     ev = sd.make_ev(evs, ids, cid, g)
     objs = [dict(o0)]
@@ -274,6 +276,25 @@ def replay_behaviour(o0, steps_in, cid, ids, seed):
                 e["exc"] = sd.exc_str(ex)
                 break
             steps.append(["SetConfig", h, sc, ec])
+        elif act == "ShiftScores":
+            h, d = h_, int(arg_[0])
+            e = ev("ShiftScores", h=h, d=d, posts=[])
+            try:
+                delta = g(d) - g(0)                      # the concretisations used here are affine
+                hit = {id(real[h - 1].pos), id(real[h - 1].neg)}
+                for arr_ in {id(real[h - 1].pos): real[h - 1].pos, id(real[h - 1].neg): real[h - 1].neg}.values():
+                    arr_ += np.asarray(delta).astype(arr_.dtype)      # in place: same array objects
+                # the abstract objects: every live object holding one of these arrays sees the write
+                for k_ in range(len(objs)):
+                    if id(real[k_].pos) in hit:
+                        objs[k_] = dict(objs[k_], pos=[v + d for v in objs[k_]["pos"]])
+                    if id(real[k_].neg) in hit:
+                        objs[k_] = dict(objs[k_], neg=[v + d for v in objs[k_]["neg"]])
+                e["posts"] = [sd.alpha_obj(r_, sd.inv_map(g)) for r_ in real]
+            except Exception as ex:  # noqa
+                e["exc"] = sd.exc_str(ex)
+                break
+            steps.append(["ShiftScores", h, d])
         elif act == "SetScores":
             h, (cls_, seq) = h_, arg_
             e = ev("SetScores", h=h, cls=cls_, seq=list(seq), post=dict(sd.EMPTY_POST))
